@@ -24,7 +24,12 @@ META = {
               'symbolic over {keep-alive, time-update, unknown} (the class is '
               'solver-chosen through the real id table) with symbolic '
               'payload; login state: a plugin request; outgoing packets: '
-              'handshake, login start and the built-in replies',
+              'handshake, login start and the built-in replies; the '
+              'registration API is symbolic over {register_packet_listener, '
+              'a fresh @listener decorator per handler, one decorator '
+              'object shared per (list, types)}; every clientbound play '
+              'class registered at 757, 340, 47 (thorough: 8 releases) with '
+              'an all-zero 64-byte body',
     'outside': 'thread interleavings; more than two listeners per list; '
                'listener callbacks that themselves register listeners',
     'assumptions': [
@@ -391,6 +396,53 @@ def forced_reply(ctx):
         z3.BoolVal(ids == want_ids))
 
 
+def every_class(ctx, pv=757):
+    """for EVERY clientbound play packet class registered at this version:
+    one frame carrying its id and a minimal (all-zero) body, followed by a
+    keep-alive.  An early and an ordinary listener registered for Packet
+    each run exactly once for it, with an instance of that class, and the
+    following packet is still dispatched.  (Classes whose decoder refuses an
+    all-zero body are skipped: decoding is C05's subject.)"""
+    from minecraft.networking.connection import Connection, ConnectionContext
+    from minecraft.networking.packets import Packet, clientbound
+    cb = clientbound.play
+    cx = ConnectionContext(protocol_version=pv)
+    classes = sorted(cb.get_packets(cx), key=lambda c: c.__name__)
+    classes = [c for c in classes if c.__name__ not in (
+        'DisconnectPacket', 'KeepAlivePacket', 'SetCompressionPacket',
+        'PlayerPositionAndLookPacket')]    # these have built-in reactions
+    cls = classes[concretize(ctx.int('cls', 0, len(classes) - 1))]
+    ka = ctx.int('ka', 0, 127)
+    history = [wire.leb128_const(cls.get_id(cx)) + [0] * 64,
+               cb.KeepAlivePacket(keep_alive_id=ka)]
+    log, excs, servers = [], [], []
+
+    def factory(wld, sock):
+        srv = c11.PlayServer(wld, sock, cx, history, None, None)
+        servers.append(srv)
+        return srv
+    with World(ctx, factory) as wld:
+        conn = Connection('host', 25565, username='u', allowed_versions=[pv],
+                          handle_exception=lambda e, i: excs.append(e))
+        wld.conn = conn
+        conn.register_packet_listener(
+            lambda p: log.append(('early', type(p))), Packet, early=True)
+        conn.register_packet_listener(
+            lambda p: log.append(('late', type(p))), Packet)
+        conn.connect()
+        wld.run()
+    note_key(ctx, 'C13:every_class:%d' % pv)
+    if excs:
+        raise core.PathAbort()      # the decoder refused the all-zero body
+    play = [e for e in log if e[1] is not clientbound.login.LoginSuccessPacket]
+    want = [('early', cls), ('late', cls), ('early', cb.KeepAlivePacket),
+            ('late', cb.KeepAlivePacket)]
+    ctx.notes['class'] = cls.__name__
+    if play != want:
+        ctx.notes['got'] = repr([(a, b.__name__) for a, b in play])
+    return z3.BoolVal(play == want)
+
+
 def instances(tier, seed):
     out = []
     rnd = random.Random(seed * 31 + 5)
@@ -406,6 +458,11 @@ def instances(tier, seed):
     out.append(Instance('same_name', 'same_name', {}, W=96, budget_s=900))
     out.append(Instance('forced_reply', 'forced_reply', {}, W=96,
                         budget_s=900))
+    for pv in ([757, 340, 47] if tier != 'thorough' else
+               [757, 754, 578, 498, 404, 340, 110, 47]):
+        out.append(Instance('every_class:%d' % pv, 'every_class',
+                            {'pv': pv}, W=96, budget_s=900,
+                            max_decisions=100000))
     out.append(Instance('sentinel:listeners', 'listeners',
                         {'config': [list(c) for c in FIXED[1]],
                          'sentinel': True}, W=96, expect='violation',
